@@ -103,6 +103,9 @@ func (e *Enum) setIsIota() {
 		if !member.Const.Exported() {
 			continue // ignore non exported const
 		}
+		if seen[v] {
+			return // a repeated exported value : members and wire values do not match by position
+		}
 		seen[v] = true
 		if max < v {
 			max = v
